@@ -339,6 +339,7 @@ func (interp *Interpreter) cfg(root *node, sc *scope, importPath, pkgName string
 					sc.sym[lv.ident] = &symbol{index: vindex, kind: varSym, typ: lv.typ}
 					lv.findex = vindex
 					lv.gen = loopVarFor
+					n.gen = loopVarForBack
 				}
 			}
 
